@@ -38,6 +38,26 @@ type Tgt struct {
 	Default bool
 	Emit    bool // body also writes text through stdout
 	Pad     int
+	// Spell gives, per dependency label, the (legal, non-canonical) spelling written in the build
+	// file, e.g. "//p2/:t1" or "//p1//sub:t3" for "//p2:t1" / "//p1/sub:t3".
+	Spell map[string]string
+}
+
+// respell returns a legal non-canonical spelling of an absolute target label.
+func respell(label string, k int) string {
+	i := strings.LastIndex(label, ":")
+	pkg, name := label[:i], label[i:]
+	switch k % 3 {
+	case 0:
+		return pkg + "/" + name // trailing separator
+	case 1:
+		if j := strings.Index(pkg[2:], "/"); j >= 0 {
+			return pkg[:2+j] + "//" + pkg[2+j+1:] + name // repeated separator inside
+		}
+		return pkg + "//" + name
+	default:
+		return "//" + "/" + pkg[2:] + name // repeated separator after the root
+	}
 }
 
 func (t *Tgt) Label() string { return "//" + t.Pkg + ":" + t.Name }
@@ -243,6 +263,11 @@ func (p *Proj) RenderFile(id string) string {
 		b.WriteString(pad(t.Pad, t.Name))
 		var kw []string
 		deps := append([]string{}, t.Deps...)
+		for i, d := range deps {
+			if sp, ok := t.Spell[d]; ok {
+				deps[i] = sp
+			}
+		}
 		if len(deps) > 0 {
 			kw = append(kw, "deps="+quoteList(deps))
 		}
@@ -474,6 +499,12 @@ func (g *Gen) Project() *Proj {
 			switch r.IntN(6) {
 			case 0, 1:
 				t.Deps = append(t.Deps, d.Label())
+				if r.IntN(5) == 0 {
+					if t.Spell == nil {
+						t.Spell = map[string]string{}
+					}
+					t.Spell[d.Label()] = respell(d.Label(), r.IntN(3))
+				}
 			case 2:
 				if d.Gen != "" && len(t.GenSrc) < 2 {
 					t.GenSrc = append(t.GenSrc, d.Label())
